@@ -68,3 +68,24 @@ Theorem C11_add_outgrads_model_follows_source :
       run_action K k0 kadd a fl n prev c.
 Proof. exact add_outgrads_follows_source. Qed.
 Print Assumptions C11_add_outgrads_model_follows_source.
+
+(* basic index expressions - integers (negative allowed), slices with any bounds and any non-zero step, Ellipsis, newaxis,
+   on an array of any shape: the positions they select (computed by the model of NumPy's resolution, BasicIndex.v, which the
+   correspondence run compares with NumPy's) are distinct and in range, so the gradient places each cotangent entry at
+   exactly its position and is zero everywhere else *)
+From AG Require Import BasicIndex BasicIndexProof.
+Theorem C11_basic_index_gradient_places_exactly :
+  forall (K : Type) (k0 k1 : K) (kadd kmul ksub : K -> K -> K) (kopp : K -> K),
+    ring_theory k0 k1 kadd kmul ksub kopp eq ->
+    forall dims items sigma (g : list K),
+      basic_sigma dims items = Some sigma -> length g = length sigma ->
+      (NoDup sigma /\ List.Forall (fun q => q < prodn dims) sigma)
+      /\ (forall k, k < length sigma -> nth (nth k sigma 0) (Index.scatter K k0 kadd (prodn dims) sigma g) k0 = nth k g k0)
+      /\ (forall j, ~ In j sigma -> nth j (Index.scatter K k0 kadd (prodn dims) sigma g) k0 = k0)
+      /\ length (Index.scatter K k0 kadd (prodn dims) sigma g) = prodn dims.
+Proof.
+  intros K k0 k1 kadd kmul ksub kopp HR dims items sigma g Hs Hl.
+  split; [exact (basic_sigma_distinct dims items sigma Hs)|].
+  exact (basic_index_gradient_places_exactly K k0 k1 kadd kmul ksub kopp HR dims items sigma g Hs Hl).
+Qed.
+Print Assumptions C11_basic_index_gradient_places_exactly.
